@@ -3,6 +3,25 @@
 package tchannel
 
 // C12 (frame ownership): contracts on the points where a frame changes hands.
+//
+// own(f) == 1: the current thread of control holds frame f (directive `owned
+// Frame own` in verif_contracts.go: every access through a *Frame needs it).
+// FramePool.Get / NewFrame / receiving from a frame queue produce the token;
+// FramePool.Release, sending on a frame queue and `go f(frame)` consume it.
+// So "released at most once" and "not touched after release or hand-off" are
+// #consumes / #owned obligations on every sequential path of every function
+// below; the clauses written here say WHO holds a frame at each interface:
+//   release ==> own(frame) == 1     a frame the reader loop is asked to release
+//                                   was not given away by the handler
+//   err != nil / !sent ==> own == 1 a refused frame stays with the caller
+//   TokensKept()                    the call loses no frame the caller holds
+//   NoFrameLeft()                   every frame obtained inside the call was
+//                                   handed on before it returns (no leak)
+// Frames that are never handed back (LEAK) are marked where they occur; all of
+// them are on fault paths (timeout, cancellation, malformed or unexpected
+// frame, full queue, connection failure), which the property allows.
+// Trusted in this file: Relayer.Relay (dispatcher only), InboundCall.readMethod
+// (nil-safety facts only), and the `C12io` views used inside the two I/O loops.
 
 // Completing the response must not give back (or touch) frames that the
 // request side of the call still refers to: its reader's current chunks alias
@@ -13,6 +32,593 @@ package tchannel
 //@ func (response *InboundCallResponse) doneSending()
 //@   requires response.mex != nil && MexSetOK(response.mex.mexset)
 //@   nosafety
-//@   label completing-the-response-leaves-request-frames-alone
 //@   modifies allbut own, Frame
 //@   property C01 C12
+
+// ===========================================================================
+// connection.go -- the two frame queues and the reader / writer goroutines
+// ===========================================================================
+
+// Frames travelling on the send queue are well formed (full-size buffer,
+// header size >= 16) and change owner: the sender gives the frame up, the
+// writer goroutine becomes its holder.
+//@ chanfield Connection.sendCh(f *Frame)
+//@   requires FrameShape(f) && f.Header.size >= 16
+//@   consumes own(f)
+//@   produces own(f)
+
+// An exchange's receive queue (invariant and `produces` in the C20 file): the
+// reader loop gives the frame up when it forwards it.
+//@ chanfield messageExchange.recvCh(v *Frame)
+//@   consumes own(v)
+
+// Stamping the activity clocks reads the frame header and nothing else of it.
+//@ func (c *Connection) updateLastActivityRead(frame *Frame)
+//@   modifies allbut own, Frame, bytes
+//@   label no-token-is-lost
+//@   ensures TokensKept()
+//@   property C12
+//@ func (c *Connection) updateLastActivityWrite(frame *Frame)
+//@   modifies allbut own, Frame, bytes
+//@   label no-token-is-lost
+//@   ensures TokensKept()
+//@   property C12
+
+// ---------------------------------------------------------------------------
+// The two I/O loops. Engine limitation that shapes this section: a loop whose
+// body calls a `modifies all/allbut` function forgets EVERYTHING at the loop
+// head (callee keep-lists are not consulted there), including the loop's own
+// local variable `c` (a closure captures it, so the engine keeps it in a heap
+// cell). From the second iteration on, `c` is an arbitrary connection and only
+// structure invariants are known of it. The ownership argument does not need
+// more (tokens are per frame, the channel contracts are per field name), but
+// the SAFETY preconditions that six callees put on the connection's
+// configuration (clock, logger, health-check handles, exchange tables) cannot
+// be re-established. They are ASSUMED inside the two loops, by trusted views
+// scoped to the tag `C12io` that only readFrames and writeFrames carry (so no
+// other call site loses a check). Each view restates the VERIFIED ownership
+// postcondition of the primary contract; only the dropped preconditions are
+// assumed. They are invariants of objects shared with other goroutines,
+// established by newConnection / callOnActive and never reassigned (ConnErrOK,
+// timeNow, DispatchOK) or preserved by every verified writer (MexSetFull:
+// addExchange / deleteExchange prove old(MexSetInv) ==> MexSetInv).
+// ---------------------------------------------------------------------------
+//@ func (c *Connection) handleFrameNoRelay(frame *Frame) (release bool)
+//@   trusted
+//@   requires FrameFull(frame) && frame.Header.size >= 16
+//@   modifies all
+//@   ensures release ==> own(frame) == 1
+//@   property C12io
+//@ func (c *Connection) handleFrameRelay(frame *Frame) (release bool)
+//@   trusted
+//@   requires FrameFull(frame) && frame.Header.size >= 16
+//@   modifies all
+//@   ensures release ==> own(frame) == 1
+//@   property C12io
+//@ func (c *Connection) updateLastActivityRead(frame *Frame)
+//@   trusted
+//@   requires own(frame) == 1
+//@   modifies allbut own, Frame, bytes
+//@   property C12io
+//@ func (c *Connection) updateLastActivityWrite(frame *Frame)
+//@   trusted
+//@   requires own(frame) == 1
+//@   modifies allbut own, Frame, bytes
+//@   property C12io
+//@ func (c *Connection) connectionError(site string, err error) (out error)
+//@   trusted
+//@   requires err != nil
+//@   modifies allbut own
+//@   property C12io
+//@ func (c *Connection) stopHealthCheck()
+//@   trusted
+//@   modifies nothing
+//@   property C12io
+
+// The socket of a connection is set once, by newConnection.
+//@ structinv (c *Connection) established newConnection : c.conn != nil
+
+// The writer goroutine releases every frame it takes from the send queue
+// exactly once, after writing it -- also when the write fails -- and never
+// touches it afterwards; on stop it drains the queue, releasing each drained
+// frame once.
+//@ func (c *Connection) writeFrames(_ uint32)
+//@   nosafety
+//@   modifies all
+// (at every loop head the goroutine holds no frame it did not hold at entry:
+// the frame taken from the queue in an iteration was released in it)
+//@   label frame-taken-from-the-queue-is-released-in-the-same-iteration
+//@   loop 0 invariant NoFrameLeft()
+//@   property C12 C12io
+
+// The reader loop: every frame it takes from the pool is, on every path, either
+// released exactly once by the loop itself (body read failure, handler asked
+// for release) or was given up by the handler (queued on an exchange or on a
+// destination connection, or handed to the goroutine of a new call), in which
+// case the loop never touches it again.
+//@ func (c *Connection) readFrames(_ uint32)
+//@   nosafety
+//@   modifies all
+//@   label frame-left-by-the-handler-is-released-in-the-same-iteration
+//@   loop 0 step releaseFrame ==> own(frame) == 0
+//@   property C12 C12io
+
+// TokensKept: no frame held at entry is lost (released, queued or handed to
+// another goroutine) by the call. (Stated next to every `modifies allbut own`
+// below: with the first engine build a kept name the function never mentions
+// was not frame-checked; the explicit postcondition is checked in any build.)
+//@ pred TokensKept() := forall k int :: old(own(k)) == 1 && !fresh(k) ==> own(k) == 1
+
+// After Release the token is gone (verif_contracts.go lists own(f) under
+// `modifies`, which alone would leave its value open after the call).
+//@ iface FramePool.Release(f *Frame)
+//@   ensures own(f) == 0
+
+// NoFrameLeft: every frame the function obtained (from the pool or from a
+// queue) has been handed on by the time it returns -- released, queued or given
+// to another goroutine: no token is held at exit that was not held at entry.
+// NoFrameLeftBut(f): the same, except for the frame f returned to the caller.
+//@ pred NoFrameLeft() := forall k int :: own(k) == 1 ==> old(own(k)) == 1
+//@ pred NoFrameLeftBut(f *Frame) := forall k int :: own(k) == 1 && k != ref(f) ==> old(own(k)) == 1
+
+// Tearing a connection down never touches frames held by the caller.
+//@ func (c *Connection) connectionError(site string, err error) (out error)
+//@   modifies allbut own
+//@   label no-token-is-lost
+//@   ensures TokensKept()
+//@   property C12
+
+// ===========================================================================
+// mex.go -- forwarding a frame to the goroutine waiting on an exchange
+// ===========================================================================
+
+// Forwarding hands the frame over only when it reports success: after an
+// error the caller still holds the frame (and releases it). The converse
+// (nil error ==> the frame was queued) is not provable in the engine's model:
+// ctx.Err() after Done(), the errNotifier's stored error and the package's
+// error variables may all be nil there.
+//@ func (mex *messageExchange) forwardPeerFrame(frame *Frame) (err error)
+//@   modifies own(frame)
+//@   label failed-forward-keeps-the-frame
+//@   ensures err != nil ==> own(frame) == 1
+//@   property C12
+
+// A frame for an unknown id (exchange expired, cancelled or never created) is
+// dropped with a nil error: the caller then treats it as handed over and the
+// frame is never released (LEAK on a fault path, see report).
+//@ func (mexset *messageExchangeSet) forwardPeerFrame(frame *Frame) (err error)
+//@   modifies own(frame)
+//@   label failed-forward-keeps-the-frame
+//@   ensures err != nil ==> own(frame) == 1
+//@   property C12
+
+// ===========================================================================
+// The frame handlers of the reader loop: a frame the handler asks the loop to
+// release is still held (it was neither queued, handed to a goroutine nor
+// released by the handler).
+// ===========================================================================
+
+//@ func (c *Connection) handleCallReqContinue(frame *Frame) (release bool)
+//@   nosafety
+//@   requires FrameFull(frame) && frame.Header.size >= 16 && MexSetFull(c.inbound)
+//@   modifies own(frame)
+//@   label released-frames-are-still-held
+//@   ensures release ==> own(frame) == 1
+//@   property C12
+
+//@ func (c *Connection) handleCallRes(frame *Frame) (release bool)
+//@   nosafety
+//@   requires FrameFull(frame) && frame.Header.size >= 16 && MexSetFull(c.outbound)
+//@   modifies own(frame)
+//@   label released-frames-are-still-held
+//@   ensures release ==> own(frame) == 1
+//@   property C12
+
+//@ func (c *Connection) handleCallResContinue(frame *Frame) (release bool)
+//@   nosafety
+//@   requires FrameFull(frame) && frame.Header.size >= 16 && MexSetFull(c.outbound)
+//@   modifies own(frame)
+//@   label released-frames-are-still-held
+//@   ensures release ==> own(frame) == 1
+//@   property C12
+
+//@ func (c *Connection) handlePingRes(frame *Frame) (release bool)
+//@   nosafety
+//@   requires FrameFull(frame) && frame.Header.size >= 16 && MexSetFull(c.outbound)
+//@   modifies own(frame)
+//@   label released-frames-are-still-held
+//@   ensures release ==> own(frame) == 1
+//@   property C12
+
+// The closure that queues the error frame under the state lock (contract in
+// verif_contracts.go) is handed a complete error frame: the send queue's
+// invariant is checked at its send.
+//@ closure (c *Connection) SendSystemError 2
+//@   requires FrameFull(frame) && frame.Header.size >= 16
+//@   label success-means-queued
+//@   ensures result == nil ==> own(frame) == 0
+//@   property C12
+
+// fmt.Errorf never returns nil (T3: standard library).
+//@ extern fmt.Errorf(format string, a ...interface{}) (err error)
+//@   modifies nothing
+//@   ensures err != nil
+
+// Error frames: the frame built here is queued (then the writer goroutine
+// holds it) or released, never both -- and no frame of the caller is involved.
+//@ func (c *Connection) SendSystemError(id uint32, span Span, err error) (sendErr error)
+//@   modifies allbut own, writableFragment
+//@   label no-token-is-lost
+//@   ensures TokensKept()
+//@   label error-frame-is-queued-or-released
+//@   ensures NoFrameLeft()
+//@   property C12
+
+//@ func (c *Connection) protocolError(id uint32, err error) (e error)
+//@   modifies allbut own
+//@   label no-token-is-lost
+//@   ensures TokensKept()
+//@   property C12
+
+// A call req frame is handed to the goroutine that runs the call, or is left
+// with the reader loop for release -- on every refusal path (closing
+// connection, undecodable request, duplicate id, close during admission).
+//@ func (c *Connection) handleCallReq(frame *Frame) (release bool)
+//@   label released-frames-are-still-held
+//@   ensures release ==> own(frame) == 1
+//@   property C12
+
+// The goroutine running an inbound call becomes the holder of the call's first
+// frame. It never touches the frame itself: the frame is given back through the
+// call's fragments (readableFragment.done, at most once per fragment).
+//@ func (c *Connection) dispatchInbound(_ uint32, _ uint32, call *InboundCall, frame *Frame)
+//@   nosafety
+//@   consumes own(frame)
+//@   modifies all
+//@   label frame-is-given-back-through-the-fragments-only
+//@   atcall Release false
+//@   property C12
+
+// The close sequence of a connection never touches frames (the channel-level
+// callbacks it runs are assumed not to, T4: funcfield connectionEvents.* in
+// verif_contracts.go; they do not touch fragments being written either).
+//@ funcfield connectionEvents.OnCloseStateChange(c *Connection)
+//@   modifies allbut writableFragment
+//@ funcfield connectionEvents.OnExchangeUpdated(c *Connection)
+//@   modifies allbut writableFragment
+
+//@ func (c *Connection) close(fields ...LogField) (err error)
+//@   modifies allbut own, writableFragment
+//@   label no-token-is-lost
+//@   ensures TokensKept()
+//@   property C12
+
+//@ func (c *Connection) checkExchanges()
+//@   modifies allbut own, writableFragment
+//@   label no-token-is-lost
+//@   ensures TokensKept()
+//@   property C12
+
+//@ func (c *Connection) handleError(frame *Frame) (release bool)
+//@   label released-frames-are-still-held
+//@   ensures release ==> own(frame) == 1
+//@   property C12
+
+// Ping requests and cancel frames are consumed on the spot: the reader loop
+// releases them.
+//@ func (c *Connection) handlePingReq(frame *Frame)
+//@   nosafety
+//@   requires own(frame) == 1 && ConnErrOK(c) && c.opts.FramePool != nil
+//@   modifies allbut own
+//@   label no-token-is-lost
+//@   ensures TokensKept()
+//@   property C12
+
+//@ func (c *Connection) handleCancel(frame *Frame) (release bool)
+//@   label no-token-is-lost
+//@   ensures TokensKept()
+//@   property C12
+
+// Standalone messages (ping, cancel): the frame built here is queued or --
+// when it cannot be encoded -- released. When the send queue is full it is
+// neither (LEAK on a fault path: ErrSendBufferFull, see report).
+//@ func (c *Connection) sendMessage(msg message) (err error)
+//@   label no-token-is-lost
+//@   ensures TokensKept()
+//@   label frame-is-queued-or-released-unless-the-queue-is-full
+//@   ensures err != ErrSendBufferFull ==> NoFrameLeft()
+//@   property C12
+
+//@ func (c *Connection) handleFrameNoRelay(frame *Frame) (release bool)
+//@   label released-frames-are-still-held
+//@   ensures release ==> own(frame) == 1
+//@   property C12
+
+// ===========================================================================
+// relay.go -- a relayed frame is queued on the destination connection (then
+// that connection's writer goroutine holds it) or left with the reader loop of
+// the source connection for release.
+// ===========================================================================
+
+// ASSUMED (trusted, conjoined with the trusted contracts of the C14 and C20
+// files): the 15-line dispatcher itself. Its three callees carry the verified
+// ownership clauses below (handleNonCallReq, Relayer.handleCallReq,
+// messageExchangeSet.forwardPeerFrame); see report for why it cannot be made a
+// verified contract from this file.
+//@ func (r *Relayer) Relay(f *Frame) (shouldRelease bool, err error)
+//@   trusted
+//@   requires FrameFull(f) && f.Header.size >= 16
+//@   label released-frames-are-still-held
+//@   ensures shouldRelease ==> own(f) == 1
+
+//@ func (c *Connection) handleFrameRelay(frame *Frame) (release bool)
+//@   label released-frames-are-still-held
+//@   ensures release ==> own(frame) == 1
+//@   property C12
+
+// Receive (the destination side): the frame is queued on this connection's
+// send queue, or it is not sent and the caller still holds it (and releases
+// it). A late frame for a tombstoned / timing-out item is swallowed: reported
+// as sent although it is neither queued nor released (LEAK on a fault path:
+// the relayed call timed out; see report).
+//@ func (r *Relayer) Receive(f *Frame, fType frameType) (sent bool, failureReason string)
+//@   requires f.Header.size >= 16
+//@   modifies allbut writableFragment
+//@   label unsent-frames-are-still-held
+//@   ensures !sent ==> own(f) == 1
+//@   property C12
+
+//@ iface frameReceiver.Receive(f *Frame, fType frameType) (sent bool, failureReason string)
+//@   requires FrameFull(f) && f.Header.size >= 16
+//@   modifies allbut writableFragment
+//@   ensures !sent ==> own(f) == 1
+
+// Failing / finishing a relay item sends at most an error frame built on the
+// spot; it never touches frames of the caller. (This is the verified backing
+// of the `own` entry in the C14 file's trusted view of failRelayItem.)
+//@ func (r *Relayer) failRelayItem(items *relayItems, id uint32, reason string, err error)
+//@   modifies allbut own, writableFragment
+//@   label no-token-is-lost
+//@   ensures TokensKept()
+//@   property C12
+//@ func (r *Relayer) finishRelayItem(items *relayItems, id uint32)
+//@   modifies allbut own, writableFragment
+//@   label no-token-is-lost
+//@   ensures TokensKept()
+//@   property C12
+
+// Frames other than call req: forwarded to the destination (handed over) or
+// left with the reader loop.
+//@ func (r *Relayer) handleNonCallReq(f *Frame) (shouldRelease bool, err error)
+//@   label released-frames-are-still-held
+//@   ensures shouldRelease ==> own(f) == 1
+//@   label errors-leave-the-frame-with-the-caller
+//@   ensures err != nil ==> shouldRelease
+//@   property C12
+
+// Call req frames: every refusal path (relay host error, closing connection,
+// no destination, destination not active, frame not sent) and the re-fragmenting
+// path (new frames are sent in place of this one) leave the frame with the
+// reader loop; only a successful Receive on the destination hands it over.
+//@ func (r *Relayer) handleCallReq(f *lazyCallReq) (shouldRelease bool, err error)
+//@   label released-frames-are-still-held
+//@   ensures shouldRelease ==> own(old(f.Frame)) == 1
+//@   label errors-leave-the-frame-with-the-caller
+//@   ensures err != nil ==> shouldRelease
+//@   property C12
+
+//@ func (r *relayItems) Entomb(id uint32, deleteAfter time.Duration) (item relayItem, ok bool)
+//@   modifies allbut own, writableFragment
+//@   label no-token-is-lost
+//@   ensures TokensKept()
+//@   property C12
+
+// Choosing (and dialling) the destination never involves the call req frame;
+// an error frame sent on failure is built on the spot.
+//@ func (r *Relayer) getDestination(f *lazyCallReq, call RelayCall) (conn *Connection, ok bool, err error)
+//@   modifies allbut own
+//@   label no-token-is-lost
+//@   ensures TokensKept()
+//@   property C12
+
+// Re-fragmenting a call req whose arg2 was extended (fragmentingSend, ASSUMED in
+// the C14 file: the engine rejects its body) sends NEW frames through this
+// sender: each is taken from the pool, then handed to the destination or --
+// when the destination does not take it -- released here, once.
+//@ iface sentBytesReporter.SentBytes(size uint16)
+//@   modifies nothing
+// (the field holds Relayer.failRelayItem, whose verified contract keeps `own`)
+//@ funcfield relayFragmentSender.failRelayItemFunc(items *relayItems, id uint32, failure string, err error)
+//@   modifies allbut own, writableFragment
+
+//@ func (rfs *relayFragmentSender) newFragment(initial bool, checksum Checksum) (wf *writableFragment, err error)
+//@   nosafety
+//@   requires rfs.framePool != nil && rfs.callReq != nil && rfs.callReq.Frame != nil && own(rfs.callReq.Frame) == 1 && checksum != nil
+//@   modifies cs(checksum)
+//@   label fragment-holds-a-pool-frame
+//@   ensures wf != nil && fresh(wf.frame) && FrameFull(wf.frame)
+//@   property C12
+
+//@ func (rfs *relayFragmentSender) flushFragment(wf *writableFragment) (err error)
+//@   nosafety
+//@   requires WF(wf) && rfs.frameReceiver != nil && rfs.framePool != nil && rfs.sentReporter != nil && rfs.failRelayItemFunc != nil
+//@   modifies all
+//@   property C12
+
+// (keep-list additions needed by relayFragmentSender.flushFragment, which reads
+// wf.frame again after Receive: nothing on the relay's send path touches a
+// fragment that is being written)
+//@ func (r *relayItems) Get(id uint32, stopTimeout bool) (item relayItem, stopped bool, found bool)
+//@   modifies allbut writableFragment
+//@   property C12
+//@ func (r *relayItems) Delete(id uint32) (item relayItem, ok bool)
+//@   modifies allbut writableFragment
+//@   property C12
+//@ func (r *Relayer) decrementPending()
+//@   modifies allbut writableFragment
+//@   property C12
+
+// ===========================================================================
+// reqres.go -- the writer side: a fragment's frame comes from the pool and is
+// handed to the connection's writer goroutine when the fragment is flushed.
+// ===========================================================================
+
+// (LEAK on fault paths, see report: when the message cannot be encoded, or the
+// write buffer reports an error, the pool frame is neither returned to the
+// caller in a usable fragment nor released.)
+//@ func (w *reqResWriter) newFragment(initial bool, checksum Checksum) (fragment *writableFragment, err error)
+//@   modifies allbut own
+//@   label fragment-frame-comes-from-the-pool
+//@   ensures err == nil ==> fresh(fragment.frame)
+//@   label no-token-is-lost
+//@   ensures TokensKept()
+//@   property C12
+
+// Failing the writer shuts the exchange down; no frame is involved.
+//@ func (w *reqResWriter) failed(err error) (e error)
+//@   modifies allbut own
+//@   label no-token-is-lost
+//@   ensures TokensKept()
+//@   property C12
+
+// TokensKeptBut(f): no frame held at entry other than f is lost by the call.
+//@ pred TokensKeptBut(f *Frame) := forall k int :: old(own(k)) == 1 && !fresh(k) && k != ref(f) ==> own(k) == 1
+
+// flushFragment queues the fragment's frame (the only send in it, checked by
+// the atsend clauses of verif_contracts.go, gives the token up) or fails and
+// leaves the frame with the caller, never both. On failure nobody releases it
+// (LEAK on a fault path: the call already failed -- timeout, cancellation,
+// connection error; see report). The converse (nil error ==> queued) is not
+// provable in the engine's model (GetContextError(ctx.Err()) may be nil there).
+//@ func (w *reqResWriter) flushFragment(fragment *writableFragment) (err error)
+//@   label unqueued-frame-is-still-held
+//@   ensures err != nil ==> own(old(fragment.frame)) == 1
+//@   label no-other-token-is-lost
+//@   ensures TokensKeptBut(old(fragment.frame))
+//@   property C12
+
+// ===========================================================================
+// reqres.go / fragmenting_reader.go -- the reader side: a received frame is
+// wrapped in a fragment whose release callback gives it back to the pool.
+// ===========================================================================
+
+// fragFrame(f): the frame a parsed fragment refers to (defined where the
+// fragment is parsed; each fragment is parsed once).
+//@ ghost func fragFrame(f *readableFragment) *Frame
+//@ func parseInboundFragment(framePool FramePool, frame *Frame, message message) (fragment *readableFragment, err error)
+//@   defines err == nil ==> fragFrame(fragment) == frame
+//@   property C12
+
+// The release callback of a parsed fragment: whoever runs it holds the frame,
+// and the callback releases exactly that frame, once.
+//@ closure parseInboundFragment 1
+//@   requires framePool != nil && frame != nil
+//@   consumes own(frame)
+//@   modifies own(frame)
+//@   property C12
+
+// A fragment's release callback and contents are set once, by the parser (a
+// fragment whose parse failed half-way has neither and is dropped).
+//@ structinv (f *readableFragment) established parseInboundFragment : f.contents != nil ==> f.onDone != nil
+
+// The callback releases a frame; it does not touch call objects (nor can it
+// assign local variables of the goroutine running the call).
+//@ funcfield readableFragment.onDone()
+//@   modifies allbut InboundCall, *InboundCall, *Connection
+
+// done() runs the callback at most once per fragment: the first call sets
+// isDone (verif_contracts.go: ensures f.isDone), every later call changes
+// nothing.
+//@ func (f *readableFragment) done()
+//@   modifies allbut InboundCall, *InboundCall, *Connection
+//@   label second-done-is-a-no-op
+//@   ensures old(f.isDone) ==> TokensKept() && f.isDone
+//@   property C12
+
+// The frame received from the exchange is held by the caller and becomes the
+// frame of the fragment returned (which is remembered as previousFragment so
+// that it can be released). A frame whose fragment cannot be parsed is not
+// released (LEAK on a fault path: malformed frame; see report).
+//@ func (r *reqResReader) recvNextFragment(initial bool) (fragment *readableFragment, err error)
+//@   label received-frame-goes-into-the-fragment
+//@   ensures err == nil && old(r.initialFragment) == nil ==> own(fragFrame(fragment)) == 1 && !fragment.isDone
+//@   property C12
+
+// Idempotent: without a previous fragment, or with one that is already done,
+// nothing is released.
+//@ func (r *reqResReader) releasePreviousFragment()
+//@   nosafety
+//@   requires r.previousFragment != nil ==> r.previousFragment.onDone != nil
+//@   modifies allbut fragmentingReader, cs, nrecv, doneCalls, doneCode, InboundCallResponse, errAttempts, *InboundCall, *Connection
+//@   label nothing-to-release
+//@   ensures old(r.previousFragment) == nil || old(r.previousFragment.isDone) ==> TokensKept()
+//@   property C12
+
+// Waiting on an exchange never costs the caller a frame it holds; an error
+// frame received instead of the expected one is released once it was decoded,
+// exactly once (deferred Release with the token held). A frame with a foreign
+// id or of an unexpected type is dropped without release (LEAK on a fault
+// path, see report).
+//@ func (mex *messageExchange) recvPeerFrameOfType(msgType messageType) (f *Frame, err error)
+//@   label no-token-is-lost
+//@   ensures forall k int :: old(own(k)) == 1 ==> own(k) == 1
+//@   label returned-frame-was-in-flight
+//@   ensures f != nil ==> old(own(f)) == 0
+//@   label only-the-returned-frame-is-new
+//@   ensures f != nil ==> NoFrameLeftBut(f)
+//@   label error-frame-is-released-after-decoding
+//@   ensures lastRecv(mex) != 0 && old(msgType) != messageTypeError && frameAt(lastRecv(mex)).Header.messageType == messageTypeError ==> NoFrameLeft()
+//@   property C12
+//@ func (mex *messageExchange) recvPeerFrame() (f *Frame, err error)
+//@   label only-the-returned-frame-is-new
+//@   ensures f != nil ==> NoFrameLeftBut(f)
+//@   property C12
+
+// Standalone responses (ping, init): the response frame is released once it
+// has been decoded.
+//@ func (c *Connection) recvMessage(ctx context.Context, msg message, mex *messageExchange) (err error)
+//@   label no-token-is-lost
+//@   ensures forall k int :: old(own(k)) == 1 ==> own(k) == 1
+//@   label response-frame-is-released
+//@   ensures err == nil ==> NoFrameLeft()
+//@   property C12
+
+// ASSUMED (trusted): reading arg1 runs the fragment reader through io.Reader
+// wrappers of the standard library, which the engine does not follow. Only
+// nil-safety facts are assumed: the fragments the call still refers to were
+// produced by parseInboundFragment (the only function that creates fragments),
+// so they carry a release callback.
+// (`allbut *InboundCall, *Connection`: the callee cannot assign the caller's
+// local variables `call` and `c`, which the engine keeps in heap cells because
+// the watcher goroutine's closure captures them)
+//@ func (call *InboundCall) readMethod() (err error)
+//@   trusted
+//@   modifies allbut *InboundCall, *Connection
+//@   ensures (call.initialFragment != nil ==> call.initialFragment.onDone != nil) && (call.previousFragment != nil ==> call.previousFragment.onDone != nil)
+
+// ===========================================================================
+// preinit_connection.go -- handshake messages use a pool frame for the
+// duration of one call: released on every path (deferred), exactly once.
+// ===========================================================================
+//@ func (ch *Channel) writeMessage(c net.Conn, msg message) (err error)
+//@   label frame-is-released-on-every-path
+//@   ensures NoFrameLeft() && TokensKept()
+//@   property C12
+//@ func (ch *Channel) readMessage(c net.Conn, msg message) (id uint32, err error)
+//@   label frame-is-released-on-every-path
+//@   ensures NoFrameLeft() && TokensKept()
+//@   property C12
+
+// ===========================================================================
+// fragmenting_reader.go -- when fragments (hence their frames) are given back:
+// the current fragment is done before the next one is fetched, and the last
+// one is done when the last argument is closed successfully.
+// ===========================================================================
+//@ func (r *fragmentingReader) recvAndParseNextFragment(initial bool) (err error)
+//@   label previous-fragment-is-released-before-the-next-is-fetched
+//@   atcall recvNextFragment r.curFragment != nil ==> r.curFragment.isDone
+//@   property C12
+//@ func (r *fragmentingReader) Close() (err error)
+//@   label last-fragment-is-released-when-the-reader-finishes
+//@   ensures err == nil && old(r.state) == fragmentingReadInLastArgument ==> r.curFragment != nil && r.curFragment.isDone
+//@   property C12
